@@ -28,7 +28,7 @@ def gen_cases(ctx):
             out.append((c["case"], c["meta"]))
     # witness of the repaired defect: chunked request body
     e = H.gen_exchange(rng, 1, sizes=[3])
-    e.update({"method": "POST", "reqBody": H.b64(b"abc"), "reqFraming": "chunked", "reqChunks": []})
+    e.update({"method": "POST", "proto": "1.1", "reqBody": H.b64(b"abc"), "reqFraming": "chunked", "reqChunks": []})   # chunked needs HTTP/1.1
     e["reqHeaders"] = [h for h in e["reqHeaders"] if h[0].lower() != "content-type"]
     add([e], "witness-chunked-request")
 
